@@ -29,7 +29,8 @@ warnings.filterwarnings('ignore')
 
 
 def translate():
-    return {'Gen/FiniteDiff.v': TFD.translate()}
+    from translate import padding as TPAD
+    return {'Gen/FiniteDiff.v': TFD.translate(), 'Gen/Padding.v': TPAD.translate()}
 
 
 # ===================================================================== spaces
@@ -189,6 +190,7 @@ def encode(op, mode):
     from odl.operator import tensor_ops as TO
     from odl.operator import pspace_ops as PO
     from odl.discr import diff_ops as DO
+    from odl.discr import discr_ops as DI
 
     def W(sp):
         return vec(gram(sp, mode), mode)
@@ -293,6 +295,18 @@ def encode(op, mode):
             return '(Leaf (LLap %s %s %s %s %s))' % (W(op.domain), W(op.range), shape, TFD.PMODE[op.pad_mode], dxs)
         return '(Leaf (%s %s %s %s %s %s %s))' % ('LGrad' if t is DO.Gradient else 'LDiv', W(op.domain), W(op.range),
                                                   shape, TFD.METH[op.method], TFD.PMODE[op.pad_mode], dxs)
+    if t is DI.ResizingOperator or name == 'ResizingOperatorAdjoint':
+        from translate import padding as TPAD
+        fwd = t is DI.ResizingOperator
+        if fwd:
+            rop = op
+        else:
+            rop = op.adjoint                      # the ResizingOperator it was built from
+        if not rop.is_linear:
+            raise Unsupported('affine ResizingOperator')
+        return '(Leaf (%s %s %s C16.Syntax.%s %s %s %s))' % (
+            'LResize' if fwd else 'LResizeAdj', W(op.domain), W(op.range), TPAD.PMODE[rop.pad_mode],
+            nats(rop.domain.shape), nats(rop.range.shape), C.zs([int(o) for o in rop.offset]) + '%Z')
     if t is PO.BroadcastOperator:
         return '(Bcast %s)' % C.lst([encode(o, mode) for o in op.operators])
     if t is PO.ReductionOperator:
@@ -705,6 +719,15 @@ def correspondence(rng, tier):
         st = stats.setdefault(cls, [0, 0])
         st[0] += 1
         st[1] += 0 if info['holds'] else 1
+    # classes that entered the model later (ResizingOperator ...): whatever the encoder accepts
+    for cls, kind, op in extra_ops(rng, tier):
+        try:
+            mode, coq, info = make_case(rng, op)
+        except Unsupported:
+            continue
+        cs = csC if mode == 'C' else csQ
+        cs.add(coq, {'class': cls, 'space': kind, 'mode': mode, 'holds': info['holds'], 'op': repr(op)[:200]},
+               (cls, kind, C.digest(coq)) if info['nontrivial'] else None)
     ntree = 60 if tier == 'quick' else 400
     for i in range(ntree):
         cplx = (i % 3 == 2)
